@@ -44,24 +44,51 @@ inductive Deg where
   | rand
   | zero
   | exact (k : Nat)
+  | mono (k : Nat)
+  | allEq
+  | single (k : Nat)
+  | alt
+  | top
+  | holes
 
 def parseDeg (s : String) : Option Deg :=
   match s with
   | "r" => some .rand
   | "z" => some .zero
-  | _ => s.toNat?.map .exact
+  | "a" => some .allEq
+  | "t" => some .alt
+  | "b" => some .top
+  | "i" => some .holes
+  | _ =>
+    if s.startsWith "m" then (s.drop 1).toString.toNat?.map .mono
+    else if s.startsWith "s" then (s.drop 1).toString.toNat?.map .single
+    else s.toNat?.map .exact
 
-/-- canonical coordinates of `n` elements of extension degree `d`, element-major -/
+/-- canonical coordinates of `n` elements of extension degree `d`, element-major (same shapes as the harness) -/
 def genCoords (F : FieldImpl) (seed n d : Nat) (deg : Deg) : Array Nat :=
   let v : Array Nat := ((List.range (n * d)).foldl (fun (st : Array Nat × Nat) _ =>
     let (w, s) := draw F st.2
     (st.1.push (w % F.M), s)) (Array.mkEmpty (n * d), seed)).1
+  let fixTop (v : Array Nat) (k : Nat) : Array Nat :=
+    if k < n ∧ (List.range d).all (fun c => v.getD (k * d + c) 0 == 0) then v.setIfInBounds (k * d) 1 else v
   match deg with
   | .rand => v
   | .zero => v.map (fun _ => 0)
-  | .exact k =>
-    let v := v.mapIdx (fun i x => if i ≥ (k + 1) * d then 0 else x)
-    if k < n ∧ (List.range d).all (fun c => v.getD (k * d + c) 0 == 0) then v.setIfInBounds (k * d) 1 else v
+  | .exact k => fixTop (v.mapIdx (fun i x => if i ≥ (k + 1) * d then 0 else x)) k
+  | .mono k => if k < n then (v.map (fun _ => 0)).setIfInBounds (k * d) 1 else v.map (fun _ => 0)
+  | .allEq => v.mapIdx (fun i _ => v.getD (i % d) 0)
+  | .single k => fixTop (v.mapIdx (fun i x => if i / d ≠ k then 0 else x)) k
+  | .alt => v.mapIdx (fun i _ => v.getD ((i / d % 2) * d + i % d) 0)
+  | .top => v.map (fun _ => F.M - 1)
+  | .holes => v.mapIdx (fun i x => if i / d % 3 = 1 then 0 else x)
+
+/-- shape of column `c` of a generated matrix -/
+def colShape (c n : Nat) : Deg :=
+  match c % 5 with
+  | 1 => .zero
+  | 3 => .exact (c % (max n 1))
+  | 4 => .allEq
+  | _ => .rand
 
 /-- elements as arrays of `d` raw words -/
 def toElems (F : FieldImpl) (d : Nat) (coords : Array Nat) : Array (Array Nat) :=
@@ -98,6 +125,26 @@ def res (F : FieldImpl) (d : Nat) : Option (Array (Array Nat)) → String
 /-- sizes above which the model is not run (`-`): the quadratic-free model is still much slower than Rust -/
 def tooBig (n blowup cols : Nat) : Bool := n > 1024 || n * blowup * cols > 4096
 
+def interp (F : FieldImpl) (d : Nat) (n twn seed sh : String) : String :=
+  match n.toNat?, twn.toNat?, seed.toNat?, parseDeg sh with
+  | some n, some twn, some seed, some sh =>
+    if tooBig n 1 d || twn > 2048 then "-" else
+    let v := toElems F d (genCoords F seed n d sh)
+    match getInvTwiddles (baseOps F) twn with
+    | none => "panic"
+    | some itw => res F d (interpolatePoly (elemOps F) (baseOps F) maxLoop v itw)
+  | _, _, _, _ => "bad-op"
+
+def interpo (F : FieldImpl) (d : Nat) (n twn seed off sh : String) : String :=
+  match n.toNat?, twn.toNat?, seed.toNat?, parseOff F off, parseDeg sh with
+  | some n, some twn, some seed, some off, some sh =>
+    if tooBig n 1 d || twn > 2048 then "-" else
+    let v := toElems F d (genCoords F seed n d sh)
+    match getInvTwiddles (baseOps F) twn with
+    | none => "panic"
+    | some itw => res F d (interpolatePolyWithOffset (elemOps F) (baseOps F) maxLoop v itw (F.new off))
+  | _, _, _, _, _ => "bad-op"
+
 def handleF (F : FieldImpl) (d : Nat) : List String → String
   | ["eval", n, twn, seed, deg] =>
     match n.toNat?, twn.toNat?, seed.toNat?, parseDeg deg with
@@ -117,24 +164,10 @@ def handleF (F : FieldImpl) (d : Nat) : List String → String
       | none => "panic"
       | some tw => res F d (evaluatePolyWithOffset (elemOps F) (baseOps F) maxLoop p tw (F.new off) blowup)
     | _, _, _, _, _, _ => "bad-op"
-  | ["interp", n, twn, seed] =>
-    match n.toNat?, twn.toNat?, seed.toNat? with
-    | some n, some twn, some seed =>
-      if tooBig n 1 d || twn > 2048 then "-" else
-      let v := toElems F d (genCoords F seed n d .rand)
-      match getInvTwiddles (baseOps F) twn with
-      | none => "panic"
-      | some itw => res F d (interpolatePoly (elemOps F) (baseOps F) maxLoop v itw)
-    | _, _, _ => "bad-op"
-  | ["interpo", n, twn, seed, off] =>
-    match n.toNat?, twn.toNat?, seed.toNat?, parseOff F off with
-    | some n, some twn, some seed, some off =>
-      if tooBig n 1 d || twn > 2048 then "-" else
-      let v := toElems F d (genCoords F seed n d .rand)
-      match getInvTwiddles (baseOps F) twn with
-      | none => "panic"
-      | some itw => res F d (interpolatePolyWithOffset (elemOps F) (baseOps F) maxLoop v itw (F.new off))
-    | _, _, _, _ => "bad-op"
+  | ["interp", n, twn, seed] => interp F d n twn seed "r"
+  | ["interp", n, twn, seed, sh] => interp F d n twn seed sh
+  | ["interpo", n, twn, seed, off] => interpo F d n twn seed off "r"
+  | ["interpo", n, twn, seed, off, sh] => interpo F d n twn seed off sh
   | ["rt", n, seed, deg, off] =>
     match n.toNat?, seed.toNat?, parseDeg deg, parseOff F off with
     | some n, some seed, some deg, some off =>
@@ -205,7 +238,7 @@ def handleF (F : FieldImpl) (d : Nat) : List String → String
       if cols = 0 ∨ n ≤ 1 ∨ !isPow2 n then "panic" else
       -- base-field columns of the column-major matrix: column c, coordinate e ↦ base column c*d + e
       let baseCols : Array (Array Nat) := (List.range (cols * d)).toArray.map fun bc =>
-        let coords := genCoords F ((seed + bc / d) % 18446744073709551616) n d .rand
+        let coords := genCoords F ((seed + bc / d) % 18446744073709551616) n d (colShape (bc / d) n)
         (List.range n).toArray.map fun r => F.new (coords.getD (r * d + bc % d) 0)
       let B := baseOps F
       let rm : Option (RowMat Nat) :=
@@ -248,13 +281,13 @@ def handleF (F : FieldImpl) (d : Nat) : List String → String
         match dom.traceToLdeBlowup, dom.traceToCeBlowup with
         | some t2l, some t2c =>
           let columns : Array (Array (Array Nat)) := (List.range cols).toArray.map fun c =>
-            toElems F d (genCoords F ((seed + c) % 18446744073709551616) n d .rand)
+            toElems F d (genCoords F ((seed + c) % 18446744073709551616) n d (colShape c n))
           -- evaluate_columns_over: trace twiddles, offset and trace_to_lde_blowup of the domain
           match columns.mapM (fun p => evaluatePolyWithOffset (elemOps F) B maxLoop p dom.traceTwiddles dom.offset t2l) with
           | none => "panic"
           | some lde_cols =>
             let baseCols : Array (Array Nat) := (List.range (cols * d)).toArray.map fun bc =>
-              let coords := genCoords F ((seed + bc / d) % 18446744073709551616) n d .rand
+              let coords := genCoords F ((seed + bc / d) % 18446744073709551616) n d (colShape (bc / d) n)
               (List.range n).toArray.map fun r => F.new (coords.getD (r * d + bc % d) 0)
             match evaluatePolysOverDomain (elemOps F) B (F.new 0) maxLoop w baseCols n dom with
             | none => "panic"
@@ -279,7 +312,7 @@ def handleF (F : FieldImpl) (d : Nat) : List String → String
       if cols = 0 ∨ n ≤ 1 ∨ !isPow2 n then "panic" else
       let B := baseOps F
       let columns : Array (Array (Array Nat)) := (List.range cols).toArray.map fun c =>
-        toElems F d (genCoords F ((seed + c) % 18446744073709551616) n d .rand)
+        toElems F d (genCoords F ((seed + c) % 18446744073709551616) n d (colShape c n))
       -- interpolate_columns: inverse twiddles once, then every column
       match getInvTwiddles B n with
       | none => "panic"
